@@ -89,7 +89,7 @@ def gen_program(rng, size):
 # ---- renderer -------------------------------------------------------------------------------------
 def render(rng, cmds, module_level=0):
     """Python text of the program; the first `module_level` declarations are placed at module level"""
-    head, body, outs = [], [], []
+    head, body, outs, out_stmts = [], [], [], []
     helper_used = False
     for r, c in enumerate(cmds):
         v = f"r{r}"
@@ -125,7 +125,17 @@ def render(rng, cmds, module_level=0):
             s = rng.choice([f'{v} = Output(r{c["v"]}, "{c["name"]}", r{c["party"]})',
                             f'{v} = Output(r{c["v"]}, name="{c["name"]}", party=r{c["party"]})'])
             outs.append(v)
+            out_stmts.append(s)
+            continue
         (head if r < module_level and op in ("party", "input", "wrap") else body).append(s)
+    # the outputs are *constructed* in any order (and a draft that is never returned may be constructed too): the program's
+    # outputs are the ones nada_main returns, in the order of the returned list
+    if out_stmts and rng.random() < 0.4:
+        rng.shuffle(out_stmts)
+    if outs and rng.random() < 0.25:
+        first = next(c for c in cmds if c["op"] == "out")
+        out_stmts.insert(rng.randrange(len(out_stmts) + 1), f'_draft = Output(r{first["v"]}, "draft", r{first["party"]})')
+    body += out_stmts
     text = "from nada_dsl import *\n"
     if helper_used:
         text += "def _apply(f, p, q):\n    return f(p, q)\n"
